@@ -20,7 +20,8 @@
 (***************************************************************************)
 EXTENDS Integers, Sequences, FiniteSets, TLC
 
-CONSTANTS Handles, None, Kind       \* Kind = "sim" (Simultaneous: steady, solve) or "seq" (Sequential: parameters only)
+CONSTANTS Handles, None, Kind       \* Kind = "sim" (Simultaneous: steady, solve), "seq" (Sequential: parameters only) or
+                                    \* "var" (RedVAR: the "parameter" g of a variant is the data set it was estimated on; assign = re-estimate)
 
 VARIABLES obj, last, tol        \* tol[h]: which tolerance setting handle h carries (0 = defaults; a model-level attribute, not per variant)
 mvars == <<obj, last, tol>>
@@ -40,7 +41,7 @@ Cycle(v) == (v % 3) + 1
 CurVal(h, which, name) == LET i == IF which = 0 THEN 1 ELSE which IN IF name = "g" THEN obj[h][i].p[1] ELSE obj[h][i].p[2]
 \* assign a parameter in one variant (which in 1..n) or in all variants (which = 0)
 Assign(h, which, name) ==
-    /\ InUse(h) /\ which <= Len(obj[h])
+    /\ InUse(h) /\ which <= Len(obj[h]) /\ (Kind = "var" => name = "g")
     /\ \E val \in {Cycle(CurVal(h, which, name))} :
        /\ obj' = [obj EXCEPT ![h] = [i \in 1..Len(obj[h]) |->
                      IF which = 0 \/ which = i THEN [obj[h][i] EXCEPT !.p = SetPar(obj[h][i].p, name, val)] ELSE obj[h][i]]]
